@@ -846,11 +846,58 @@ Proof.
   intros Hn Hc. unfold vscan. destruct (pc T); auto; rewrite from_cons_ne; auto; intros X; rewrite X in Hn; tauto.
 Qed.
 
+(* thread t writes v into its own slot k (hazard_pointer_using / done_using) *)
+Lemma vinv_slot s s' t T' k v :
+  VInv s -> slot s' = upd (slot s) (S t) (upd (slot s (S t)) k v) -> pool s' = pool s ->
+  kslots s' = kslots s -> recs s' = recs s -> thr s' = upd (thr s) t T' ->
+  held T' = upd (held (thr s t)) k 0 -> joined T' = joined (thr s t) ->
+  (pc T' = P3 -> sl T' = k /\ nd T' = v) ->
+  (match pc T' with X1 | S2 | S3 | S4 => False | _ => True end) -> VInv s'.
+Proof.
+  intros [V1 V2] Es Ep EK Er Ethr Eh Ej Hp3 Q.
+  constructor; rewrite ?Es, ?Ep, ?EK, ?Er, ?Ethr.
+  - intros u i. thr_cases u t.
+    + rewrite Eh. destruct (Nat.eq_dec i k) as [->|Hik]; [rewrite upd_same; tauto|].
+      rewrite !(upd_other _ k _ i) by auto. intros Hn.
+      destruct (V1 t i Hn) as (B1 & B2 & B3 & B4 & B5 & B6).
+      split; auto. split; [congruence|]. split; auto. split; auto. split.
+      * intros w. thr_cases w t; [intros X; rewrite X in Q; tauto|auto].
+      * intros w. thr_cases w t; [intros _; unfold vscan; destruct (pc T'); tauto|auto].
+    + intros Hn. destruct (V1 u i Hn) as (B1 & B2 & B3 & B4 & B5 & B6).
+      rewrite upd_other by congruence. split; auto. split; auto. split; auto. split; auto. split.
+      * intros w. thr_cases w t; [intros X; rewrite X in Q; tauto|auto].
+      * intros w. thr_cases w t; [intros _; unfold vscan; destruct (pc T'); tauto|auto].
+  - intros u. thr_cases u t.
+    + intros X. destruct (Hp3 X) as [-> ->]. now rewrite !upd_same.
+    + intros X. rewrite upd_other by congruence. auto.
+Qed.
+
+(* thread t moves on inside a scan (or into it): same held/joined/rlist *)
+Lemma vinv_scanstep s t T' :
+  VInv s -> held T' = held (thr s t) -> joined T' = joined (thr s t) -> rlist T' = rlist (thr s t) ->
+  pc T' <> X1 -> pc T' <> P3 ->
+  (forall u i, held (thr s u) i <> 0 -> joined (thr s u) = true -> i < kslots s ->
+               slot s (S u) i = held (thr s u) i ->
+               In (held (thr s u) i) (rlist (thr s t)) ->
+               vscan (recs s) (thr s t) (S u) i (held (thr s u) i) ->
+               vscan (recs s) T' (S u) i (held (thr s u) i)) ->
+  VInv (set_thr s t T').
+Proof.
+  intros [V1 V2] Eh Ej Erl NX NP Hv.
+  assert (HH : forall u, held (upd (thr s) t T' u) = held (thr s u)).
+  { intros u. thr_cases u t; auto. }
+  constructor; ssimp.
+  - intros u i. rewrite HH. intros Hn. destruct (V1 u i Hn) as (B1 & B2 & B3 & B4 & B5 & B6).
+    split; auto. split; [thr_cases u t; congruence|]. split; auto. split; auto. split.
+    + intros w. thr_cases w t; [tauto|auto].
+    + intros w. thr_cases w t; [|auto]. rewrite Erl. intros X. apply Hv; auto.
+  - intros u. thr_cases u t; [tauto|auto].
+Qed.
+
 Lemma vinv_step s t : RInv s -> NInv s -> VInv s -> VInv (fst (step sort s t)).
 Proof.
   intros I N V. pose proof V as [V1 V2].
   pose proof I as [IK Ih Ind Inz Il Ij It Iloc].
-  pose proof (safe_gc s t) as SAFE.
   unfold step. remember (thr s t) as T eqn:HT.
   assert (LT := Iloc t). rewrite <- HT in LT. unfold rlocal, rlocalP in LT.
   assert (JT : joined T = true <-> In (S t) (recs s)) by (rewrite HT; apply Ij).
@@ -867,20 +914,279 @@ Proof.
       intros u r i n Hu. apply vscan_push; auto.
       assert (Lu := Iloc u). unfold rlocal, rlocalP in Lu. destruct (pc (thr s u)); tauto.
     + frame_v s t V; subst T; try reflexivity; unfold quiet; tsimp; auto.
-  - admit.
-  - admit.
-  - admit.
-  - admit.
-  - admit.
-  - admit.
-  - admit.
-  - admit.
-  - admit.
-  - admit.
-  - admit.
-  - admit.
-  - admit.
-  - admit.
-  - admit.
-  - exact V.
-Admitted.
+  - (* J7 *) destruct (rnext s (S t) =? 0); cbn [fst].
+    + fin_tac. apply (vinv_fin s t T); auto; congruence.
+    + frame_v s t V; subst T; try reflexivity; unfold quiet; tsimp; auto.
+  - (* J8 *) frame_v s t V; subst T; try reflexivity; unfold quiet; tsimp; auto.
+  - (* J9 *) destruct (rnext s (cur T) =? 0); cbn [fst].
+    + fin_tac. apply (vinv_fin s t T); auto; congruence.
+    + frame_v s t V; subst T; try reflexivity; unfold quiet; tsimp; auto.
+  - (* P1 *) frame_v s t V; subst T; try reflexivity; unfold quiet; tsimp; auto.
+  - (* P2 *) eapply (vinv_slot s _ t _ (sl T) (nd T)); try reflexivity; try exact V; ssimp; tsimp; subst T; auto.
+  - (* P3 *) destruct (Nat.eqb_spec (cell s (cj T)) (nd T)) as [E|E]; fin_tac.
+    2:{ apply (vinv_fin s t T); auto; congruence. }
+    destruct Hfin as [[A1 [A2 A3]] A4]. tsimp.
+    assert (Q : quiet T2) by (eapply start_quiet; eauto).
+    destruct LT as (J & Hsl & Hcj).
+    assert (HP3 : slot s (S t) (sl T) = nd T) by (rewrite HT; apply V2; rewrite <- HT; auto).
+    constructor; ssimp.
+    + intros u i. thr_cases u t.
+      * rewrite A3. destruct (Nat.eq_dec i (sl T)) as [->|Hi]; [rewrite !upd_same | rewrite !(upd_other _ (sl T) _ i) by auto].
+        -- intros Hn. split; auto. split; [congruence|]. split; auto. split.
+           { intros X. apply (n_pool_cell s N _ (cj T) X). auto. }
+           split.
+           ++ intros w. thr_cases w t; [intros X; unfold quiet in Q; rewrite X in Q; tauto|].
+              intros X. destruct (n_hand s N w X) as (_ & _ & B3 & _). intros Y. apply (B3 (cj T)). congruence.
+           ++ intros w. thr_cases w t; [intros _; apply quiet_vscan; auto|].
+              intros X. exfalso. apply (n_rl_cell s N w _ (cj T) X). auto.
+        -- intros Hn. rewrite HT in Hn. destruct (V1 t i Hn) as (B1 & B2 & B3 & B4 & B5 & B6). rewrite <- HT in *.
+           split; auto. split; [congruence|]. split; auto. split; auto. split.
+           ++ intros w. thr_cases w t; [intros X; unfold quiet in Q; rewrite X in Q; tauto|auto].
+           ++ intros w. thr_cases w t; [intros _; apply quiet_vscan; auto|auto].
+      * intros Hn. destruct (V1 u i Hn) as (B1 & B2 & B3 & B4 & B5 & B6).
+        split; auto. split; auto. split; auto. split; auto. split.
+        -- intros w. thr_cases w t; [intros X; unfold quiet in Q; rewrite X in Q; tauto|auto].
+        -- intros w. thr_cases w t; [intros _; apply quiet_vscan; auto|auto].
+    + intros u. thr_cases u t; [intros X; unfold quiet in Q; rewrite X in Q; tauto|auto].
+  - (* C1 *) fin_tac. destruct Hfin as [[A1 [A2 A3]] A4]. tsimp.
+    assert (Q : quiet T2) by (eapply start_quiet; eauto).
+    eapply (vinv_slot s _ t _ (sl T) 0); try reflexivity; try exact V; ssimp; try congruence.
+    + intros X. unfold quiet in Q. rewrite X in Q. tauto.
+    + unfold quiet in Q. destruct (pc T2); tauto.
+  - (* X0 *) destruct (pool s) as [|f p] eqn:Hp; cbn [fst].
+    + fin_tac. apply (vinv_fin s t T); auto; congruence.
+    + assert (HH : forall u, held (upd (thr s) t (set_pc (set_nd T f) X1) u) = held (thr s u)).
+      { intros u. thr_cases u t; tsimp; congruence. }
+      constructor; ssimp.
+      * intros u i. rewrite HH. intros Hn. destruct (v_held s V u i Hn) as (B1 & B2 & B3 & B4 & B5 & B6).
+        rewrite Hp in B4. split; auto. split; [thr_cases u t; tsimp; congruence|]. split; auto.
+        split; [cbn in B4; tauto|]. split.
+        -- intros w. thr_cases w t; tsimp; auto. intros _ X. apply B4. rewrite X. cbn; auto.
+        -- intros w. thr_cases w t; tsimp; auto. intros _. unfold vscan; tsimp; auto.
+      * intros u. thr_cases u t; tsimp; [discriminate|apply (v_p3 s V)].
+  - (* X1 *) frame_v s t V; subst T; try reflexivity; unfold quiet; tsimp; auto.
+  - (* R1 *) destruct (rthr s (S t) <=? length (rlist T)); cbn [fst].
+    + frame_v s t V; subst T; try reflexivity; unfold quiet; tsimp; auto.
+    + fin_tac. apply (vinv_fin s t T); auto; congruence.
+  - (* S1 *) apply vinv_scanstep; auto; tsimp; try congruence; try discriminate.
+    intros u i Hn Hj Hi Hs Hr _. unfold vscan; tsimp. rewrite Ih, from_hd by auto. apply Ij. auto.
+  - (* S2 *) destruct LT as [J Hc].
+    apply vinv_scanstep; auto; tsimp; try congruence; try discriminate.
+    intros u i Hn Hj Hi Hs Hr. rewrite <- HT. unfold vscan; rewrite Hpc; tsimp.
+    destruct (from_in_hd _ _ Hc) as [tl0 E]. rewrite E. cbn [In tl]. intros [X|X]; [left; split; [auto|lia]|auto].
+  - (* S3 *) destruct LT as (J & Hc & Hi).
+    apply vinv_scanstep; auto; tsimp; try congruence; try (ifs; discriminate).
+    intros u i Hn Hj Hik Hs Hr. rewrite <- HT. unfold vscan at 1; rewrite Hpc.
+    intros [[X1 X2]|[X|X]].
+    + destruct (Nat.eq_dec (idx T) i) as [Ei|Ei].
+      * (* this is the slot being read *)
+        rewrite <- X1, Ei, Hs.
+        destruct (Nat.eqb_spec (held (thr s u) i) 0); [contradiction|].
+        unfold vscan. ifs; tsimp; [right; right|right]; apply in_or_app; right; cbn; auto.
+      * destruct (Nat.ltb_spec (S (idx T)) (kslots s)); [|lia].
+        unfold vscan; tsimp. left. split; auto. lia.
+    + unfold vscan. ifs; tsimp; auto.
+    + assert (In (held (thr s u) i) (snap T ++ [slot s (cur T) (idx T)])) by (apply in_or_app; auto).
+      unfold vscan. ifs; tsimp; auto.
+  - (* S4 *) destruct LT as (J & Hc).
+    destruct (from_next (rnext s) (recs s) (cur T) Ind Il Inz Hc) as [[A B]|[A [B D]]].
+    + rewrite A. cbn [Nat.eqb]. fin_tac. destruct Hfin as [[A1 [A2 A3]] A4]. tsimp.
+      assert (Q : quiet T2) by (eapply start_quiet; eauto).
+      assert (HH : forall u, held (upd (thr s) t T2 u) = held (thr s u)).
+      { intros u. thr_cases u t; congruence. }
+      constructor; ssimp.
+      * intros u i. rewrite HH. intros Hn. destruct (V1 u i Hn) as (B1 & B2 & B3 & B4 & B5 & B6).
+        split; auto. split; [thr_cases u t; congruence|]. split; auto. split.
+        -- rewrite in_app_iff, <- in_rev. intros [X|X]; [|auto].
+           apply (safe_gc s t u i I V); rewrite <- ?HT; auto.
+        -- split.
+           ++ intros w. thr_cases w t; [intros X; unfold quiet in Q; rewrite X in Q; tauto|auto].
+           ++ intros w. thr_cases w t; [intros _; apply quiet_vscan; auto|auto].
+      * intros u. thr_cases u t; [intros X; unfold quiet in Q; rewrite X in Q; tauto|auto].
+    + destruct (Nat.eqb_spec (rnext s (cur T)) 0) as [E|_]; [contradiction|]. cbn [fst].
+      apply vinv_scanstep; auto; tsimp; try congruence; try discriminate.
+      intros u i Hn Hj Hik Hs Hr. rewrite <- HT. unfold vscan; rewrite Hpc; tsimp.
+      rewrite D. cbn [tl]. destruct (from_in_hd _ _ B) as [tl0 E]. rewrite E. cbn [In tl].
+      intros [[X|X]|X]; auto. left. split; [auto|lia].
+  - (* U1 *) fin_tac. apply (vinv_fin s t T); auto; congruence.
+  - (* Fin *) exact V.
+Qed.
+
+Lemma init_vinv K P C NN progs : VInv (init K P C NN progs).
+Proof.
+  constructor.
+  - intros u i Hn. exfalso. apply Hn. apply (init_thr_ok K P C NN progs u).
+  - intros u Hu. exfalso. destruct (init_thr_ok K P C NN progs u) as (_ & _ & _ & X).
+    unfold start_ok in X. rewrite Hu in X. exact X.
+Qed.
+
+(* ================================================================== *)
+(* G. layer 4: sizes (snapshot, retired list)                           *)
+(* ================================================================== *)
+Definition in_retire (T : tst) : nat :=
+  match pc T with R1 | S1 | S2 | S3 | S4 => 1 | _ => 0 end.
+
+Definition blocal (K : nat) (rc : list nat) (T : tst) : Prop :=
+  match pc T with
+  | S3 => In (chead T) rc /\
+          length (snap T) + length (from (cur T) rc) * K <= length (from (chead T) rc) * K + idx T /\
+          length (from (chead T) rc) * K <= maxp T
+  | S4 => In (chead T) rc /\
+          length (snap T) + length (from (cur T) rc) * K <= length (from (chead T) rc) * K + K /\
+          length (from (chead T) rc) * K <= maxp T
+  | _ => True
+  end.
+
+Definition rbound (s : st) (t : nat) : nat := max (rthr s (S t) - 1) (length (recs s) * kslots s).
+
+Record BInv (s : st) : Prop := {
+  b_loc : forall t, blocal (kslots s) (recs s) (thr s t);
+  b_nj : forall t, joined (thr s t) = false -> rlist (thr s t) = [];
+  b_len : forall t, length (rlist (thr s t)) <= rbound s t + in_retire (thr s t)
+}.
+
+Lemma binv_frame s s' t T' :
+  BInv s -> recs s' = recs s -> kslots s' = kslots s -> thr s' = upd (thr s) t T' ->
+  (forall u, u <> t -> rthr s (S u) <= rthr s' (S u)) ->
+  blocal (kslots s) (recs s) T' -> (joined T' = false -> rlist T' = []) ->
+  length (rlist T') <= rbound s' t + in_retire T' -> BInv s'.
+Proof.
+  intros [B1 B2 B3] Er EK Ethr Hm L NJ Len.
+  constructor; rewrite ?Er, ?EK, ?Ethr.
+  - intros u. thr_cases u t; auto.
+  - intros u. thr_cases u t; auto.
+  - intros u. thr_cases u t; auto. specialize (B3 u). specialize (Hm u n).
+    unfold rbound in *. rewrite Er, EK. lia.
+Qed.
+
+Lemma start_blocal K0 C K rc T : start_ok K0 C T -> blocal K rc T.
+Proof. unfold start_ok, blocal. destruct (pc T); tauto. Qed.
+
+(* a step of t that leaves recs/rthr/rlist alone and moves between pcs with
+   the same in_retire (or leaves the retire) *)
+Lemma binv_local s s' t T' :
+  BInv s -> recs s' = recs s -> kslots s' = kslots s -> rthr s' = rthr s -> thr s' = upd (thr s) t T' ->
+  rlist T' = rlist (thr s t) -> joined T' = joined (thr s t) ->
+  in_retire (thr s t) <= in_retire T' -> blocal (kslots s) (recs s) T' -> BInv s'.
+Proof.
+  intros B Er EK Et Ethr Erl Ej Hr L. eapply (binv_frame s _ t); eauto.
+  - intros u _. rewrite Et. auto.
+  - rewrite Erl, Ej. apply (b_nj s B).
+  - rewrite Erl. pose proof (b_len s B t). unfold rbound in *. rewrite Er, EK, Et. lia.
+Qed.
+
+Lemma binv_fin s t T0 T2 :
+  BInv s -> rlist T0 = rlist (thr s t) -> joined T0 = joined (thr s t) ->
+  length (rlist (thr s t)) <= rbound s t ->
+  same_regs T0 T2 /\ start_ok (kslots s) (ncell s) T2 -> BInv (set_thr s t T2).
+Proof.
+  intros B Erl Ej Len [[A1 [A2 _]] A3]. eapply (binv_frame s _ t); try reflexivity; auto.
+  - eapply start_blocal; eauto.
+  - rewrite A1, A2, Erl, Ej. apply (b_nj s B).
+  - rewrite A2, Erl. unfold rbound in *. ssimp. lia.
+Qed.
+
+Lemma keep_length s t :
+  NInv s -> length (scan_keep sort (snap (thr s t)) (rlist (thr s t))) <= length (snap (thr s t)).
+Proof.
+  intros N. apply NoDup_incl_length.
+  - apply keep_nodup. apply (n_rl_nd s N).
+  - intros n Hn. apply keep_in in Hn. destruct Hn as [_ Hb].
+    apply bsearch_correct in Hb; auto. eapply Permutation_in; [apply Permutation_sym, sort_perm|exact Hb].
+Qed.
+
+Lemma binv_step s t : RInv s -> NInv s -> BInv s -> BInv (fst (step sort s t)).
+Proof.
+  intros I N B. pose proof B as [B1 B2 B3].
+  pose proof I as [IK Ih Ind Inz Il Ij It Iloc].
+  unfold step. remember (thr s t) as T eqn:HT.
+  assert (LT := Iloc t). rewrite <- HT in LT. unfold rlocal, rlocalP in LT.
+  assert (BT := B1 t). rewrite <- HT in BT. unfold blocal in BT.
+  assert (LenT := B3 t). rewrite <- HT in LenT. unfold in_retire in LenT.
+  assert (NJT := B2 t). rewrite <- HT in NJT.
+  assert (JT : joined T = true <-> In (S t) (recs s)) by (rewrite HT; apply Ij).
+  assert (FromLe : forall c, length (from c (recs s)) * kslots s <= length (recs s) * kslots s).
+  { intros c. apply Nat.mul_le_mono_r. apply from_length. }
+  Ltac bloc s t T Hpc := eapply (binv_local s _ t); try reflexivity; eauto; subst T;
+                     unfold in_retire, blocal; tsimp; ifs; auto; rewrite ?Hpc; auto.
+  destruct (pc T) eqn:Hpc; cbn [fst].
+  - (* J1 *) bloc s t T Hpc.
+  - (* J2 *) bloc s t T Hpc.
+  - (* J3 *) bloc s t T Hpc.
+  - (* J4 *) bloc s t T Hpc.
+  - (* J5 *) destruct LT as (J & _). eapply (binv_frame s _ t); try reflexivity; tsimp; ssimp; auto.
+    + intros u Hu. rewrite upd_other; auto. congruence.
+    + rewrite (NJT J). cbn. lia.
+  - (* J6 *) destruct LT as (J & O & _). destruct (Nat.eqb_spec (head s) (chead T)) as [E|E]; cbn [fst].
+    + assert (NI : ~ In (S t) (recs s)) by (intros X; apply JT in X; congruence).
+      constructor; ssimp.
+      * intros u. thr_cases u t; [unfold blocal; tsimp; auto|].
+        assert (Bu := B1 u). assert (Lu := Iloc u). unfold blocal, rlocal, rlocalP in *.
+        destruct (pc (thr s u)); auto; destruct Bu as (X1 & X2 & X3); destruct Lu as (Y1 & Y2 & _);
+          (rewrite !from_cons_ne; [split; [right; auto|auto]| | ]; intros Z; rewrite Z in NI; tauto).
+      * intros u. thr_cases u t; tsimp; [discriminate|auto].
+      * intros u. thr_cases u t; tsimp.
+        -- rewrite (NJT J). cbn. lia.
+        -- specialize (B3 u). unfold rbound in *; ssimp. cbn [length]. lia.
+    + bloc s t T Hpc.
+  - (* J7 *) destruct (rnext s (S t) =? 0); cbn [fst].
+    + fin_tac. apply (binv_fin s t T); auto; try congruence. lia.
+    + bloc s t T Hpc.
+  - (* J8 *) eapply (binv_frame s _ t); try reflexivity; tsimp; ssimp; auto.
+    + intros u Hu. unfold upd. destruct (S u =? cur T); lia.
+    + unfold blocal; tsimp; auto.
+    + rewrite HT. auto.
+    + unfold rbound, in_retire; ssimp; tsimp. unfold rbound in LenT.
+      assert (rthr s (S t) <= upd (rthr s) (cur T) (rthr s (cur T) + 2 * kslots s) (S t)).
+      { unfold upd. destruct (Nat.eqb_spec (S t) (cur T)) as [<-|]; lia. }
+      lia.
+  - (* J9 *) destruct (rnext s (cur T) =? 0); cbn [fst].
+    + fin_tac. apply (binv_fin s t T); auto; try congruence. lia.
+    + bloc s t T Hpc.
+  - (* P1 *) bloc s t T Hpc.
+  - (* P2 *) bloc s t T Hpc.
+  - (* P3 *) destruct (cell s (cj T) =? nd T); fin_tac.
+    + apply (binv_fin s t (set_held T (upd (held T) (sl T) (nd T)))); auto; tsimp; try congruence. rewrite <- HT. lia.
+    + apply (binv_fin s t T); auto; try congruence. lia.
+  - (* C1 *) fin_tac. destruct Hfin as [[A1 [A2 _]] A3]. tsimp.
+    eapply (binv_frame s _ t); try reflexivity; ssimp; auto.
+    + eapply start_blocal; eauto.
+    + rewrite A1, A2. auto.
+    + rewrite A2. unfold rbound in *. ssimp. lia.
+  - (* X0 *) destruct (pool s) as [|f p]; cbn [fst].
+    + fin_tac. apply (binv_fin s t T); auto; try congruence. lia.
+    + bloc s t T Hpc.
+  - (* X1 *) eapply (binv_frame s _ t); try reflexivity; tsimp; ssimp; auto.
+    + unfold blocal; tsimp; auto.
+    + destruct LT; congruence.
+    + unfold rbound, in_retire in *; ssimp; tsimp. cbn [length]. lia.
+  - (* R1 *) destruct (Nat.leb_spec (rthr s (S t)) (length (rlist T))); cbn [fst].
+    + bloc s t T Hpc.
+    + fin_tac. apply (binv_fin s t T); auto; try congruence. unfold rbound. rewrite <- HT. lia.
+  - (* S1 *) bloc s t T Hpc.
+  - (* S2 *) destruct LT as [J Hc]. eapply (binv_local s _ t); try reflexivity; eauto; try (subst T; reflexivity).
+    + unfold in_retire; tsimp. rewrite <- HT, Hpc. auto.
+    + unfold blocal; tsimp. split; auto. split; [cbn; lia|].
+      apply Nat.div_le_lower_bound; [lia|]. specialize (It _ Hc). lia.
+  - (* S3 *) destruct LT as (J & Hc & Hi). destruct BT as (X1 & X2 & X3).
+    eapply (binv_local s _ t); try reflexivity; eauto; try (subst T; reflexivity).
+    + unfold in_retire; tsimp. rewrite <- HT, Hpc. ifs; auto.
+    + assert (length (if slot s (cur T) (idx T) =? 0 then snap T else snap T ++ [slot s (cur T) (idx T)]) <= S (length (snap T))).
+      { destruct (_ =? 0); [lia|]. rewrite app_length. cbn. lia. }
+      unfold blocal. destruct (Nat.ltb_spec (S (idx T)) (kslots s)); tsimp; (split; [auto|split; [lia|auto]]).
+  - (* S4 *) destruct LT as (J & Hc). destruct BT as (X1 & X2 & X3).
+    destruct (from_next (rnext s) (recs s) (cur T) Ind Il Inz Hc) as [[A B']|[A [B' D]]].
+    + rewrite A. cbn [Nat.eqb]. fin_tac. destruct Hfin as [[A1 [A2 _]] A3]. tsimp.
+      eapply (binv_frame s _ t); try reflexivity; ssimp; auto.
+      * eapply start_blocal; eauto.
+      * rewrite A1. intros X. congruence.
+      * rewrite A2. rewrite B' in X2. cbn [length] in X2.
+        pose proof (keep_length s t N) as KL. rewrite <- HT in KL.
+        specialize (FromLe (chead T)). unfold rbound. ssimp. lia.
+    + destruct (Nat.eqb_spec (rnext s (cur T)) 0) as [E|_]; [contradiction|]. cbn [fst].
+      eapply (binv_local s _ t); try reflexivity; eauto; try (subst T; reflexivity).
+      * unfold in_retire; tsimp. rewrite <- HT, Hpc. auto.
+      * unfold blocal; tsimp. rewrite D in X2. cbn [length] in X2. split; auto. split; [lia|auto].
+  - (* U1 *) fin_tac. apply (binv_fin s t T); auto; try congruence. lia.
+  - (* Fin *) exact B.
+Qed.
